@@ -369,6 +369,8 @@ var builtinOps = map[string]bool{
 	"+": true, "-": true, "*": true, "<": true, "<=": true, ">": true, ">=": true,
 	"select": true, "store": true, "const-array": true, "div": true, "mod": true,
 	"distinct": true, "true": true, "false": true, "!": true,
+	"str.++": true, "str.len": true, "str.suffixof": true, "str.prefixof": true, "str.substr": true,
+	"str.contains": true, "str.indexof": true, "str.<": true, "str.replace": true, "str.at": true,
 }
 
 func (t *Term) symbols(atoms map[string]string, funcs map[string]bool, bound map[string]bool) {
@@ -387,7 +389,7 @@ func (t *Term) symbols(atoms map[string]string, funcs map[string]bool, bound map
 		if _, ok := t.IntVal(); ok {
 			return
 		}
-		if t.Op == "true" || t.Op == "false" {
+		if t.Op == "true" || t.Op == "false" || strings.HasPrefix(t.Op, "\"") {
 			return
 		}
 		if bound[t.Op] {
